@@ -440,6 +440,13 @@ def custom(pid, a, check):
         shutil.rmtree(d, ignore_errors=True)
     violations = []         # (code, replay path, first line of the report)
     notes = []
+    phases = {}
+    tp = [time.time()]
+
+    def phase(name):
+        now = time.time()
+        phases[name] = round(now - tp[0], 1)
+        tp[0] = now
     known = check.load_known()
     open_kf = [k for k in known.get("open", []) if k.get("property") == PID]
     kf_seen = []
@@ -492,6 +499,7 @@ def custom(pid, a, check):
             code, out = replay_one(cx, rp, sym=True)
             violations.append((code or "replay.flaky", rp, report_line(out)))
 
+    phase("build+regress")
     # ---- 2. every prefix of a few seeds of every kind
     prefix_info = {}
     prefix_jobs = []
@@ -520,6 +528,7 @@ def custom(pid, a, check):
             if code not in ("oom",):
                 violations.append((code, "(no artifact) " + d, report_line(out)))
 
+    phase("prefixes")
     # ---- 3. coverage-guided campaigns
     campaigns = []
     scale = a.scale
@@ -541,6 +550,7 @@ def custom(pid, a, check):
                 artifact_dirs[t].append(dirs[t][2])
         campaigns.append({"corpus": tag, "seconds_per_target": secs, "processes_per_target": tier["procs"]})
 
+    phase("campaigns")
     # ---- 4. triage of artifacts
     os.makedirs(faildir, exist_ok=True)
     ignored = {"oom": 0, "slow-unit": 0, "timeout_not_confirmed": 0}
@@ -604,6 +614,7 @@ def custom(pid, a, check):
                 fh.write("failure %s (%d inputs of this kind in this run; minimised with %d test runs)\n%s\n" % (code, len(lst), ntests, out2))
             violations.append((code, dst, line))
 
+    phase("triage")
     # ---- 5. census of the final corpora: how many distinct units reached the data sections
     census = {}
 
@@ -625,11 +636,13 @@ def custom(pid, a, check):
                 census[t] = {"corpus_units": nfiles, "counters": cnt}
         cx.stats_dirs = [d for d in cx.stats_dirs if not d.endswith("stats-census")]
 
+    phase("census")
     # ---- 6. valgrind replay of the merged corpus through the unsanitized build (thorough)
     valgrind_info = None
     if tier["valgrind"] and not violations and shutil.which("valgrind"):
         valgrind_info = valgrind_pass(cx, corpus_dirs, violations, faildir, report_line)
 
+    phase("valgrind")
     # ---- 7. evidence
     counters = read_counters(cx.stats_dirs)
     evals = sum(c.get("execs", 0) for c in counters.values())
@@ -668,6 +681,7 @@ def custom(pid, a, check):
         "known_findings_reported": kf_seen,
         "ignored_artifacts": ignored,
         "notes": notes,
+        "phase_seconds": phases,
     }
     if valgrind_info is not None:
         cov["valgrind_replay"] = valgrind_info
@@ -685,6 +699,13 @@ def custom(pid, a, check):
 def valgrind_pass(cx, corpus_dirs, violations, faildir, report_line):
     """memcheck sees uninitialised reads ASan cannot; replays a coverage-minimised corpus through the -O2 build"""
     sa = cx.build_standalone()
+    # valgrind 3.19 cannot read clang 14's DWARF 5 ("debuginfo reader: ensure_valid failed"): replay a copy without debug sections
+    for t in list(sa):
+        vg_exe = sa[t] + ".vg"
+        shutil.copyfile(sa[t], vg_exe)
+        os.chmod(vg_exe, 0o755)
+        subprocess.run(["strip", "--strip-debug", vg_exe], check=False)
+        sa[t] = vg_exe
     info = {}
     jobs = []
     for t in TARGETS:
@@ -711,6 +732,14 @@ def valgrind_pass(cx, corpus_dirs, violations, faildir, report_line):
     with ThreadPoolExecutor(max_workers=16) as ex:
         for t, files, rc, out in ex.map(vg, jobs):
             if rc == 0:
+                continue
+            genuine = re.search(r"^==\d+== (Invalid (read|write|free)|Conditional jump|Use of uninitialised|Syscall param|Mismatched free|"
+                                r"Source and destination overlap|Process terminating|\d[\d,]* bytes in \d[\d,]* blocks are definitely lost)", out, re.M) \
+                or re.search(r"^C09-VIOLATION", out, re.M)
+            if not genuine:
+                # the tool itself failed (cannot start, cannot read the binary, killed): not a verdict on libvna
+                info[t]["tool_failures"] = info[t].get("tool_failures", 0) + 1
+                info[t].setdefault("tool_failure_sample", (out.strip().splitlines() or ["rc=%d" % rc])[-1][:200])
                 continue
             info[t]["errors"] += 1
             # which file: the last "Running:" line before the first valgrind error line
